@@ -35,7 +35,17 @@ func main() {
 	replay := flag.String("replay", "", "replay file")
 	deadline := flag.Int64("deadline", 0, "unix time after which units stop cleanly")
 	seed := flag.Int64("seed", 0, "seed (unused by exhaustive checks; recorded)")
+	crashChild := flag.String("crashchild", "", "internal: run as the child of a crash experiment on this directory")
+	crashOps := flag.String("crashops", "", "internal: ';'-separated store operations for -crashchild")
 	flag.Parse()
+	if *crashChild != "" {
+		var ops []string
+		if *crashOps != "" {
+			ops = strings.Split(*crashOps, ";")
+		}
+		vh.CrashChild(*crashChild, ops)
+		return
+	}
 	log.SetOutput(io.Discard)
 	debug.SetGCPercent(200)
 
